@@ -67,6 +67,7 @@ func runC05(w *World) *Result {
 	r.NotDecided = "everything that needs cmd.exe's evaluation (label search order effects, 32-bit wrap, echo. corner cases, delayed expansion inside blocks)."
 	r.Rule("R-C05-optable", "Batch operator cells + sibling agreement with Bash", 40)
 	r.Rule("R-C05-numcmp", "ordering comparisons in any Batch template have unquoted operands", 2)
+	r.Rule("R-C05-jump", "break jumps behind the loop, continue and the closer jump to its head", 3)
 	r.Rule("R-C05-alloc", "Batch labels/flags allocated in openers, read from stacks after nested constructs", 6)
 	batch, err := BuildBackend(w, "batch")
 	if err != nil {
@@ -82,6 +83,7 @@ func runC05(w *World) *Result {
 	r.Analysed["batch_line_variants"] = len(batch.Lines)
 	OpTableRule(w, batch, r, "R-C05-optable")
 	SiblingCells(w, bash, batch, r, "R-C05-optable")
+	BatchJumpRule(w, batch, r, "R-C05-jump")
 	AllocRule(w, batch, r, "R-C05-alloc")
 	PopRule(w, "batch", r, "R-C05-alloc")
 	r.Rule("R-C05-reg", "Batch: return / argument registers are written and read under the same stem and index, and the result of a call is copied out of the register right after the call line", 2)
